@@ -68,6 +68,39 @@ class FinalizerLog:
             pass
 
 
+class ReachProbes:
+    """Counters on function wrappers (not on line numbers, so they survive edits)."""
+
+    def __init__(self, fs):
+        import functools
+        import forsys.cell as fc
+        import forsys.edge as fe
+        import forsys.skeleton as fsk
+        import forsys.virtual_edges as fve
+        self.counts = {}
+        probes = self
+
+        def wrap(owner, name, label):
+            orig = getattr(owner, name, None)
+            if orig is None:
+                return
+
+            @functools.wraps(orig)
+            def w(*a, **k):
+                probes.counts[label] = probes.counts.get(label, 0) + 1
+                return orig(*a, **k)
+            setattr(owner, name, w)
+
+        wrap(fve, "join_two_vertices", "join_two_vertices-ran")
+        wrap(fsk.Skeleton, "do_t3_transition", "do_t3_transition-ran")
+        wrap(fc.Cell, "replace_vertex", "Cell.replace_vertex-ran")
+        wrap(fe.SmallEdge, "replace_vertex", "SmallEdge.replace_vertex-ran")
+        wrap(fe.SmallEdge, "unregister", "SmallEdge.unregister-ran")
+
+    def reset(self):
+        self.counts = {}
+
+
 class Unraisable:
     """Collects exceptions raised inside finalizers (Python prints and ignores them)."""
 
